@@ -15,10 +15,14 @@ def sortStrs (xs : List String) : List String := (xs.toArray.qsort (· < ·)).to
 
 def plusList (s : String) : List String := if s = "" then [] else s.splitOn "+"
 
+/-- F shares B's address, G shares C's (a node restarted on its old address under a new id). -/
+def hostOfId (id : String) : String :=
+  if id = "F" then "hB:1" else if id = "G" then "hC:1" else "h" ++ id ++ ":1"
+
 def parseMemberTok (tok : String) : Member :=
   match tok.splitOn ":" with
-  | [id, ks] => { id := id, host := "h" ++ id ++ ":1", kinds := plusList ks }
-  | [id] => { id := id, host := "h" ++ id ++ ":1", kinds := [] }
+  | [id, ks] => { id := id, host := hostOfId id, kinds := plusList ks }
+  | [id] => { id := id, host := hostOfId id, kinds := [] }
   | _ => { id := tok, host := "?", kinds := [] }
 
 def membersCase (inp impl : String) : CaseOut :=
